@@ -241,6 +241,15 @@ def run(ctx):
             if not re.search(SHAPES[f2.key], d):
                 r.violate(f2.key + "|len", f"{f2.key} reports a location whose length is `{d[-110:]}`: it must be the number of source bytes (a decoded string has a different length in legacy encodings, e.g. windows-1252 `café crème` is 10 bytes but 12 UTF-8 bytes), otherwise the range runs past the construct or overlaps the next one", f2.loc())
 
+    # ------------------------------------------------------------------ R14.8 / R14.9 (shared with C03 R03.1, C02 R02.1)
+    # a token's range is exact only if the token boundaries are: same emissions with the same raw extents as the reference
+    from .c03 import rule_product
+    from ..smgraph import Graph as _Graph, automaton as _automaton
+    _aut = _automaton()
+    rule_product(ctx, _Graph(_aut), _aut, rid="R14.8")
+    from .c02 import rule_lookahead_truncation
+    rule_lookahead_truncation(ctx, _aut, rid="R14.9")
+
     ctx.not_decided += ["that the decoder's `read` counts are right (encoding_rs)", "non-overlap of successive tokens as a run-time relation"]
     return ("Offset-carrying clauses: where document offsets are added (lexeme, attributes), who advances the document offset and by what, "
             "type-driven Align completeness, length preservation of modified tokens, and the contiguity protocol of text-chunk locations "
